@@ -431,7 +431,8 @@ type Listener struct {
 	OnAccept func(n *Net, l *Listener, client netip.AddrPort)
 	// Mutate returns the noise variants of a packet (installed by the harness)
 	Mutate func(kind string, arg int, raw []byte) [][]byte
-	Expect int // number of connections to wait for before polling stops (default 1)
+	Expect int // number of connections to wait for before polling stops (default 1; <0: never polled while the run reads)
+	patience time.Duration
 }
 
 // Listen opens a real TCP listener on addr (inside the check's private network namespace).
@@ -452,15 +453,24 @@ func (n *Net) pollListeners() {
 		if exp == 0 {
 			exp = 1
 		}
-		if len(l.Accepted) < exp {
+		// Expect < 0: a listener nobody is supposed to dial (only counted at shutdown)
+		if exp > 0 && len(l.Accepted) < exp {
+			// the dial has returned before the run starts reading, so the connection is already in the accept queue;
+			// under heavy machine load the accept may still need a moment of real time
+			l.patience = 50 * time.Millisecond
 			l.poll(n)
+			l.patience = 0
 		}
 	}
 }
 
 func (l *Listener) poll(n *Net) {
 	for {
-		l.L.SetDeadline(time.Now().Add(200 * time.Microsecond))
+		wait := 200 * time.Microsecond
+		if l.patience > 0 && len(l.Accepted) == 0 {
+			wait = l.patience
+		}
+		l.L.SetDeadline(time.Now().Add(wait))
 		c, err := l.L.Accept()
 		if err != nil {
 			return
